@@ -106,6 +106,18 @@ def fresh_record_rule(chk, prog, roles, rule="E1"):
                    any(strip(x).get("kind") == "UnaryOperator" and ref_name(kids(strip(x))[0]) == vd["name"] for x in call_args(c))
                    for c in walk(loop)):
                 role = "write position"
+        if role is None:
+            # a local that every iteration sets to a constant before anything reads it carries nothing from line to line
+            body_ = kids(loop)[-1]
+            for st_ in (kids(body_) if body_.get("kind") == "CompoundStmt" else [body_]):
+                mentions = [m_ for m_ in walk(st_) if m_.get("kind") == "DeclRefExpr" and m_.get("referencedDecl", {}).get("id") == i]
+                if not mentions:
+                    continue
+                s1 = strip(st_)
+                if s1.get("kind") == "BinaryOperator" and s1.get("opcode") == "=" and strip(kids(s1)[0], casts=True) is mentions[0] and \
+                        len(mentions) == 1 and ConstEval(prog).try_eval(kids(s1)[1]) is not None:
+                    role = "reset first thing in the loop body"
+                break
         chk.require(role is not None, rule, "%s/loop-carried/%s" % (rule, vd["name"]), loc_str(vd),
                     "the only locals carried from one line to the next are the text cursor and the write position",
                     "%s %s is modified inside the loop" % (qt, vd["name"]))
